@@ -578,23 +578,15 @@ var justifiedORD = map[string]ordJust{
 		why: "the collected unions are sorted afterwards by the qualified name of the union type, which is injective on distinct named types",
 		side: func(c *ordCtx, rs *ast.RangeStmt) (bool, string) {
 			ok := false
+			fiHere := c.w.Funcs[c.pkg.TypesInfo.Defs[c.fd.Name].(*types.Func)]
 			ast.Inspect(c.fd.Body, func(n ast.Node) bool {
 				call, isCall := n.(*ast.CallExpr)
-				if !isCall || call.Pos() < rs.End() {
+				if !isCall || call.Pos() < rs.End() || fiHere == nil {
 					return true
 				}
-				f := fullName(calleeOf(c.info, call))
-				if (f == "sort.Slice" || f == "sort.SliceStable") && len(call.Args) == 2 {
-					if fl, isLit := call.Args[1].(*ast.FuncLit); isLit && len(fl.Body.List) == 1 {
-						if ret, isRet := fl.Body.List[0].(*ast.ReturnStmt); isRet && len(ret.Results) == 1 {
-							if be, isBin := ret.Results[0].(*ast.BinaryExpr); isBin && (be.Op == token.LSS || be.Op == token.GTR) {
-								l, r := es(be.X), es(be.Y)
-								if strings.HasSuffix(l, ".name.String()") && strings.HasSuffix(r, ".name.String()") && l != r {
-									ok = true
-								}
-							}
-						}
-					}
+				// whatever the sorting API: elements compared by their name.String()
+				if sp := sortSpecOf(c.info, fiHere, call); sp != nil && sp.key == "$e.name.String()" {
+					ok = true
 				}
 				return true
 			})
